@@ -48,7 +48,7 @@ def cases(run: Run):
                 t = rng.randint(1, N * dt)
             t = min(max(t, 1), N * dt)
             dur = 0 if scope in ("scenario_step", "agent_propagation") else rng.choice([0, dt, 2 * dt, dt // 2 + 1, 3 * dt + 1, rng.randint(1, 4 * dt)])
-            events.append({"id": eid, "scope": scope, "inst": rng.choice([1, 2, 3]), "a": t, "b": t + dur})
+            events.append({"id": eid, "scope": scope, "inst": rng.choice([0, 1, 2]), "a": t, "b": t + dur})
         out.append({"op": "deliver", "start": start.isoformat(), "dt": dt, "N": N, "events": events})
     for _ in range(run.n(14, 150)):
         start = rand_start(rng)
@@ -75,6 +75,14 @@ def cases(run: Run):
     for start, dt, t in ((datetime(2021, 3, 30, 12, 0, 0), 300, 2700), (datetime(2021, 3, 30, 12, 0, 0), 60, 2700), (datetime(2021, 3, 30, 0, 0, 0), 675, 675),
                          (datetime(2021, 3, 30, 16, 0, 0), 60, 3), (datetime(2021, 3, 30, 16, 0, 0), 60, 6)):
         out.append({"op": "impulse", "start": start.isoformat(), "dt": dt, "N": t // dt + 3, "imps": [{"id": 0, "t": t, "dv": [0.0, 0.05, 0.0], "frame": "eci", "planned": False}]})
+    # the same through a real scenario (Ray jobs, registrations, the agents' own queues): impulses on step boundaries, where the event's
+    # scenario time computed from Julian dates lands a few microseconds before or after the boundary
+    for _ in range(run.n(2, 12)):
+        start = rng.choice([datetime(2018, 12, 1, 12, 0, 0), datetime(2021, 3, 30, 16, 0, 0), rand_start(rng)])
+        dt = rng.choice([60, 60, 30, 120])
+        ks = rng.sample(range(1, 12), 3)
+        imps = [{"t": k * dt, "dv": [0.0, 0.01, 0.002]} for k in ks[:2]] + [{"t": ks[2] * dt + rng.choice([-1, 1, 7]), "dv": [0.0, -0.01, 0.0]}]
+        out.append({"op": "scn-impulse", "start": start.isoformat(), "dt": dt, "N": max(im["t"] for im in imps) // dt + 2, "imps": imps, "seed": rng.randint(1, 999)})
     return out
 
 
@@ -167,7 +175,7 @@ def impl_deliver(c):
                 # the engine (task rewards) computes its window from the two datetimes; the observation-generation query is the
                 # scenario's own window; both address one instance
                 lb, ub = datetimeToJulianDate(w["prior"]), datetimeToJulianDate(w["epoch"])
-                for inst in (1, 2, 3):
+                for inst in (0, 1, 2):
                     got = getRelevantEvents(db, EventScope(scope), lb, ub, inst)
                     deliveries += [(k, int(ev.applied_bias), inst, scope) for ev in got]
     return {"windows": windows, "deliveries": sorted(deliveries, key=lambda x: (x[0], x[1], x[2] or 0))}
@@ -252,18 +260,82 @@ def impl_impulse(c):
             "dv_norm": float(np.linalg.norm((x - x_ref)[3:])), "est_queue": est_q[-1] if est_q else 0}
 
 
+# ----------------------------------------------------------------------------- impulses through the real scenario (Ray, registrations, agent queues)
+def impl_scenario_impulse(c):
+    import scen
+    from resonaate.dynamics.two_body import TwoBody
+    from resonaate.physics.time.stardate import ScenarioTime
+    from resonaate.physics.transforms.methods import ecef2eci, lla2ecef
+
+    start = datetime.fromisoformat(c["start"])
+    dt, N = c["dt"], c["N"]
+    sensors = [scen.radar_cfg(60001, 0.0, 0.0)]
+    targets, x0 = [], {}
+    for j, im in enumerate(c["imps"]):
+        ecef = lla2ecef(np.array([np.radians(1.0 + 2 * j), np.radians(2.0 + 3 * j), 700.0 + 40 * j]))
+        eci = ecef2eci(ecef, start + timedelta(seconds=90))
+        r = eci[:3]
+        v = np.cross([0, 0, 1.0], r)
+        v = v / np.linalg.norm(v) * np.sqrt(398600.4415 / np.linalg.norm(r))
+        targets.append(scen.target_cfg(10001 + j, r, v))
+        x0[10001 + j] = np.concatenate([r, v])
+    events = []
+    for j, im in enumerate(c["imps"]):
+        when = scen.iso(start + timedelta(seconds=im["t"]))
+        events.append({"scope": "agent_propagation", "scope_instance_id": 10001 + j, "start_time": when, "end_time": when, "event_type": "impulse",
+                       "thrust_vector": im["dv"], "thrust_frame": "eci", "planned": False})
+    cfg = scen.scenario_cfg(start, dt, dt * (N + 1), [scen.engine_cfg(1, targets, sensors)], truth_only=True, seed=c.get("seed", 1), events=events, prop="two_body")
+    app = scen.build(cfg)
+    try:
+        for _ in range(N):
+            app.stepForward()
+        final = {tid: np.array(a.eci_state, dtype=float) for tid, a in app.target_agents.items()}
+    finally:
+        scen.cleanup()
+    out = {}
+    T = lambda s: ScenarioTime(float(s))
+    for j, im in enumerate(c["imps"]):
+        tid = 10001 + j
+        dv = np.concatenate([np.zeros(3), np.array(im["dv"], dtype=float)])
+        refs = {}
+        a = TwoBody().propagate(T(0), T(im["t"]), x0[tid].copy()) if im["t"] > 0 else x0[tid].copy()
+        for times in (0, 1, 2):
+            b = a + times * dv
+            refs[times] = TwoBody().propagate(T(im["t"]), T(N * dt), b) if N * dt > im["t"] else b
+        out[tid] = {"final": [float(v) for v in final[tid]], "refs": {k: [float(v) for v in r] for k, r in refs.items()}, "t": im["t"]}
+    return out
+
+
+def oracle_scenario_impulse(c, impl):
+    if impl[0] != "ok":
+        return [("raises", f"{impl[1]}")]
+    fails = []
+    for tid, o in impl[1].items():
+        f = np.array(o["final"])
+        d = {k: float(np.linalg.norm(f[3:] - np.array(r)[3:])) for k, r in o["refs"].items()}
+        if not d[1] <= 1e-7:
+            times = min(d, key=d.get)
+            fails.append(("scenario-impulse", f"start {c['start']} dt {c['dt']}: the impulse of target {tid} at +{o['t']} s was applied {times} time(s) in a real scenario run "
+                                              f"(final velocity is {d[1]:.3g} km/s from the once-applied reference, {d[times]:.3g} from the {times}x one)"))
+    return fails
+
+
 def impl_case(c):
+    if c["op"] == "scn-impulse":
+        return impl_scenario_impulse(c)
     return impl_deliver(c) if c["op"] == "deliver" else impl_impulse(c)
 
 
 # ----------------------------------------------------------------------------- model
 def model_lines(c, i):
+    if c["op"] == "scn-impulse":
+        return []
     start = secs(datetime.fromisoformat(c["start"]))
     dt, N = c["dt"], c["N"]
     if c["op"] == "deliver":
         lines = [f"evt.window datetime {start} {dt} {k}" for k in range(1, N + 1)]
         for e in c["events"]:
-            insts = ["-"] if e["scope"] in ("scenario_step", "agent_propagation") else ["1", "2", "3"]
+            insts = ["-"] if e["scope"] in ("scenario_step", "agent_propagation") else ["0", "1", "2"]
             for inst in insts:
                 lines.append(f"evt.deliver datetime 1 {start} {dt} {N} {e['scope']} {inst} {e['id']} {e['scope']} {e['inst']} {start + e['a']} {start + e['b']}")
         return lines
@@ -289,7 +361,7 @@ def compare(run, c, i, mo):
         want = []
         idx = N
         for e in c["events"]:
-            insts = [None] if e["scope"] in ("scenario_step", "agent_propagation") else [1, 2, 3]
+            insts = [None] if e["scope"] in ("scenario_step", "agent_propagation") else [0, 1, 2]
             for inst in insts:
                 steps = [int(x) for x in Toks(mo[idx]).list()]
                 idx += 1
@@ -309,6 +381,8 @@ def compare(run, c, i, mo):
 
 def oracle(run: Run, c, impl):
     op = c["op"]
+    if op == "scn-impulse":
+        return oracle_scenario_impulse(c, impl)
     if impl[0] != "ok":
         return [(f"{op}:raises", f"{impl[1]}")]
     i = impl[1]
@@ -320,7 +394,7 @@ def oracle(run: Run, c, impl):
             got[(eid, inst)] += 0
             got[(eid, inst, k)] += 1
         for e in c["events"]:
-            insts = [None] if e["scope"] in ("scenario_step", "agent_propagation") else [1, 2, 3]
+            insts = [None] if e["scope"] in ("scenario_step", "agent_propagation") else [0, 1, 2]
             for inst in insts:
                 steps = sorted(k for (k, eid, ins, sc) in i["deliveries"] if eid == e["id"] and ins == inst)
                 if inst is not None and inst != e["inst"]:
@@ -398,7 +472,7 @@ def main():
     )
     run.rule = (
         "starts with odd seconds half the time, steps 2..900 s, 3-9 event rows per case on step boundaries (70%), +-1 s (15%) or anywhere (15%), "
-        "four scopes, three handler instances, durations 0..4 steps; impulse cases: 1-3 impulses in ECI/NTW frames incl. times whose scenario "
+        "four scopes, three handler instances (ids 0, 1, 2), durations 0..4 steps; impulse cases: 1-3 impulses in ECI/NTW frames incl. times whose scenario "
         "time is exactly a step boundary; every case is non-trivial; distinct by hash"
     )
     run.assumptions = ["events at or before the scenario start are outside the property"]
